@@ -481,6 +481,20 @@ func c14Cred(c *h.Ctx, k c14Case, own map[string]int, kept *[]c14Kept) {
 	if again, err2 := kc.ToBytes(); err2 != nil || !bytes.Equal(again, blob) {
 		P(c14KC+".ToBytes", "not-repeatable", "a second ToBytes() on the same object returns different bytes")
 	}
+	// the stored hash is compared as a whole: a credential whose KeyHash was cut short (or is empty) does not pass
+	for _, keep := range []int{0, 1, 16, 31} {
+		if len(kc.KeyHash) != 32 {
+			break
+		}
+		cut := *kc
+		cut.KeyHash = append([]byte(nil), kc.KeyHash[:keep]...)
+		accepted := false
+		if p := h.Guard(func() { accepted = cut.CheckIntegrity() }); p == "" && accepted {
+			P(c14KC+".CheckIntegrity", "accepts-shortened-hash", fmt.Sprintf("CheckIntegrity() is true although the stored KeyHash holds only its first %d bytes", keep))
+			break
+		}
+		c.Exec(1)
+	}
 	// the blob handed out belongs to the caller: scribbling over one does not reach the object (its cached RawBytes, its hash)
 	if b4, e4 := kc.ToBytes(); e4 == nil && len(b4) == len(blob) {
 		for i := range b4 {
